@@ -29,7 +29,8 @@ RULE = ("job = seed -> history of <= 9 operations over one client and two "
         "resumption attempt reached the server"
         ' Servers are long-lived (cache ring pre-aged by a drawn number of writes), may hold an external TLS 1.3 PSK next to the ticket keys (client offering both), and the operator may change the server cipher policy between connections.'
         ' Connections may be held open concurrently and released later in any order (enumerated shared-session skeleton: two connections on one session ending in every order and way); invalidation is sticky in the model; both sides may meanwhile support TLS 1.3 (version upgrade); handshakes may be abandoned mid-flight (invariant: only sessions of completed handshakes sit in a cache as resumable entries).'
-        ' Both ends of a resumed connection must hold the same master secret and exporter output; a ticket may be offered across a HelloRetryRequest (client without key shares).')
+        ' Both ends of a resumed connection must hold the same master secret and exporter output; a ticket may be offered across a HelloRetryRequest (client without key shares).'
+        ' ALPN is configured on all connections; a resumption may leave it out of the offer - both ends must agree on the protocol (or its absence) afterwards.')
 LEVEL_TEXT = ("Seeded exploration of connection histories; simulated time "
               "covers hours to days per history at millisecond cost, which "
               "is what makes expiry, rotation and skew reachable.  The "
@@ -185,6 +186,11 @@ def run(job, streams=None):
             sc["cset"]["cipherNames"] = mods["ciphers"]
         if mods.get("psk"):
             sc["cset"]["pskConfigs"] = [list(scen.PSK_HEX) + [mods["psk"]]]
+        # ALPN is negotiated afresh on every connection, resumed or not
+        if fl != "srp":
+            sc["alpn_s"] = ["http/1.1", "h2"]
+            if not mods.get("alpn_off"):
+                sc["alpn_c"] = ["h2", "http/1.1"]
         if mods.get("hrr"):
             sc["cset"]["keyShares"] = []
             probes["offer_across_hrr"] = 1
@@ -378,6 +384,9 @@ def run(job, streams=None):
                 elif m == 5:
                     mods["ciphers"] = ["aes256gcm", "chacha20-poly1305",
                                        "aes256"]
+                elif m == 7 and tuple(ver) < (3, 4):
+                    # this time the client does not offer ALPN
+                    mods["alpn_off"] = True
                 elif m in (6, 7) and tuple(ver) == (3, 4):
                     # no key share in the first ClientHello: the ticket is
                     # offered across a HelloRetryRequest (binders are
@@ -756,6 +765,11 @@ def judge_attempt(info, offer, S, mods, sname, v, probes, srv):
                                    offer["client_chain"]))
             if offer["client_chain"]:
                 probes["client_auth_resumed"] = 1
+            if (vc.get("alpn") or None) != (vs.get("alpn") or None):
+                v("resumed_params", "alpn|%s" % (
+                    "not_offered" if mods.get("alpn_off") else "offered"),
+                  "application protocol after resumption: client %r, "
+                  "server %r" % (vc.get("alpn"), vs.get("alpn")))
             for f in ("master", "exporter"):
                 if vc.get(f) != vs.get(f):
                     # both ends of a resumed connection derive the same
